@@ -195,7 +195,63 @@ func (s *Stream) preprocessFilterCondition(conditionStr string) string {
 		}
 	}
 
+	// Lower the SQL NOT operator to expr-lang's negation
+	processedCondition = lowerNotOperator(processedCondition)
+
 	return processedCondition
+}
+
+// lowerNotOperator rewrites a standalone SQL NOT keyword (any case) outside of
+// string literals to expr-lang's "not". expr-lang only knows the lower-case
+// operator: "NOT (x > 5)" compiled as a call of an unknown function NOT and the
+// filter then rejected every row. IS NOT NULL and NOT LIKE / NOT IN forms that
+// the preprocessing above did not consume are left as they are.
+func lowerNotOperator(cond string) string {
+	isWordChar := func(c byte) bool {
+		return c == '_' || c == '.' || (c >= '0' && c <= '9') || (c >= 'a' && c <= 'z') || (c >= 'A' && c <= 'Z')
+	}
+	var sb strings.Builder
+	prevWord := ""
+	for i := 0; i < len(cond); {
+		c := cond[i]
+		if c == '\'' || c == '"' {
+			// Copy string literal verbatim
+			j := i + 1
+			for j < len(cond) && cond[j] != c {
+				j++
+			}
+			if j < len(cond) {
+				j++
+			}
+			sb.WriteString(cond[i:j])
+			prevWord = ""
+			i = j
+			continue
+		}
+		if !isWordChar(c) {
+			sb.WriteByte(c)
+			if c != ' ' && c != '\t' && c != '\n' && c != '\r' {
+				prevWord = ""
+			}
+			i++
+			continue
+		}
+		j := i
+		for j < len(cond) && isWordChar(cond[j]) {
+			j++
+		}
+		word := cond[i:j]
+		if strings.EqualFold(word, "NOT") && word != "not" && !strings.EqualFold(prevWord, "IS") {
+			next := strings.ToUpper(strings.TrimLeft(cond[j:], " \t\r\n"))
+			if !strings.HasPrefix(next, "LIKE") && !strings.HasPrefix(next, "NULL") {
+				word = "not"
+			}
+		}
+		sb.WriteString(word)
+		prevWord = word
+		i = j
+	}
+	return sb.String()
 }
 
 // convertToAggregationFields converts old format configuration to new AggregationField format
